@@ -497,7 +497,8 @@ size_t rtosc_print_arg_val(const rtosc_arg_val_t *arg,
 
                     // append float
                     char fmtstr[8];
-                    asnprintf(fmtstr, 5, "%%.%df", prec);
+                    // '#': always print the '.', also with precision 0
+                    asnprintf(fmtstr, 6, "%%#.%df", prec);
                     int lastwrt = wrt;
                     wrt += asnprintf(buffer + wrt, bs - wrt,
                                      fmtstr, flt);
